@@ -34,17 +34,20 @@ def encode_sources(R):
                 R.encode(f'{rel}:{n.lineno} {n.name}', ast.get_source_segment(text, n))
 
 
-def build_prefix(sizes, n1, g1, values=None, commit=True):
+def build_prefix(sizes, n1, g1, values=None, commit=True, prefix_ops=()):
     sc = bmc.Scenario(sizes, bmc.Inputs(values), n1=n1, g1=g1)
     sc.setup_instances()
     sc.prefix_batch(commit=commit)
+    for i, kind in enumerate(prefix_ops):
+        sc.apply(kind, f'p{i}')
+    sc.prev = None
     return sc
 
 
-def concrete_replay(sizes, n1, g1, seq, vals, asserts, commit=True):
+def concrete_replay(sizes, n1, g1, seq, vals, asserts, commit=True, prefix_ops=()):
     """Re-run prefix + sequence concretely with the model's values on the real Python + concrete emulator.
     Returns the list of violated assertion names."""
-    sc = build_prefix(sizes, n1, g1, values=vals, commit=commit)
+    sc = build_prefix(sizes, n1, g1, values=vals, commit=commit, prefix_ops=prefix_ops)
     bad, bad_relaxed = [], []
 
     def collect(label):
@@ -65,15 +68,16 @@ def concrete_replay(sizes, n1, g1, seq, vals, asserts, commit=True):
 
 
 def run_bmc_property(R, pid, sizes, n1, g1, alphabet, depth, asserts, classify, workers=12, commit=True,
-                     seq_filter=None, timeout_ms=180000, extra_seqs=()):
+                     seq_filter=None, timeout_ms=180000, extra_seqs=(), prefix_ops=()):
     encode_sources(R)
     t0 = time.time()
-    sc = build_prefix(sizes, n1, g1, commit=commit)
+    sc = build_prefix(sizes, n1, g1, commit=commit, prefix_ops=prefix_ops)
     sc.record('prefix', asserts(sc))
     build_s = time.time() - t0
     R.bounds.setdefault('passes', []).append({
         'sizes': sizes.as_dict(), 'jobs_in_update_1': n1, 'job_groups_in_update_1': g1, 'bmc_depth': depth, 'alphabet': list(alphabet),
-        'named_scenarios': [list(x) for x in extra_seqs], 'update_1_committed_in_prefix': commit})
+        'named_scenarios': [list(x) for x in extra_seqs], 'update_1_committed_in_prefix': commit,
+        'operations_appended_to_prefix': list(prefix_ops)})
     R.bounds['shape'] = ('group parents, job->group, parents among the two previous jobs, always_run, cores, tokens, times, '
                          'instance states: symbolic')
     # base: the prefix itself (batch creation from the empty database) satisfies the assertions
@@ -81,7 +85,7 @@ def run_bmc_property(R, pid, sizes, n1, g1, alphabet, depth, asserts, classify, 
     if r0 != 'sat':
         raise HarnessError(f'prefix assumptions not satisfiable ({r0}) — vacuous')
     r, vals, which, dt = bmc.solve_violation(sc, timeout_ms)
-    handle(R, pid, sizes, n1, g1, (), 'sat-new' if r == 'sat' else r, vals, which, dt, asserts, classify, commit)
+    handle(R, pid, sizes, n1, g1, (), 'sat-new' if r == 'sat' else r, vals, which, dt, asserts, classify, commit, prefix_ops)
     seqs = [s for k in range(1, depth + 1) for s in itertools.product(alphabet, repeat=k)]
     if seq_filter is not None:
         seqs = [s for s in seqs if seq_filter(s)]
@@ -99,7 +103,7 @@ def run_bmc_property(R, pid, sizes, n1, g1, alphabet, depth, asserts, classify, 
             continue
         n_states += len(seq)
         n_trans += len(seq)
-        handle(R, pid, sizes, n1, g1, seq, r, vals, which, dt, asserts, classify, commit)
+        handle(R, pid, sizes, n1, g1, seq, r, vals, which, dt, asserts, classify, commit, prefix_ops)
     R.states += n_states
     R.transitions += n_trans
     R.sample({'layer': 'bmc', 'prefix_build_s': round(build_s, 1), 'sequences': len(full), 'unreachable_sequences': unreachable,
@@ -107,8 +111,10 @@ def run_bmc_property(R, pid, sizes, n1, g1, alphabet, depth, asserts, classify, 
               'named_deep_scenarios': [list(x) for x in extra_seqs]})
 
 
-def handle(R, pid, sizes, n1, g1, seq, r, vals, which, dt, asserts, classify, commit):
+def handle(R, pid, sizes, n1, g1, seq, r, vals, which, dt, asserts, classify, commit, prefix_ops=()):
     name = ' ; '.join(seq) if seq else 'prefix (batch creation from the empty database)'
+    if prefix_ops:
+        name = '[' + ' ; '.join(prefix_ops) + '] ' + name
     if r == 'unsat':
         R.ob(name, 'discharged', dt, nontrivial=True)
         return
@@ -116,7 +122,7 @@ def handle(R, pid, sizes, n1, g1, seq, r, vals, which, dt, asserts, classify, co
         R.ob(name, 'not_discharged', dt, {'solver': r})
         return
     clean = {k: v for k, v in vals.items() if '!' not in k or True}
-    bad, csc = concrete_replay(sizes, n1, g1, seq, clean, asserts, commit)
+    bad, csc = concrete_replay(sizes, n1, g1, seq, clean, asserts, commit, prefix_ops)
     R.traces_validated += 1
     if not bad:
         raise HarnessError(f'counterexample for [{name}] does not reproduce on the concrete run (solver said {which[:3]})')
@@ -125,7 +131,7 @@ def handle(R, pid, sizes, n1, g1, seq, r, vals, which, dt, asserts, classify, co
     cls = classify(bad, clean, csc, r == 'sat-known')
     what = f'history [{name}] violates {bad[0]}' + (f' (+{len(bad) - 1} more)' if len(bad) > 1 else '')
     st = R.finding(cls, what, {'kind': 'bmc', 'sizes': sizes.as_dict(), 'n1': n1, 'g1': g1, 'seq': list(seq), 'values': clean,
-                               'commit': commit, 'violated': bad,
+                               'commit': commit, 'violated': bad, 'prefix_ops': list(prefix_ops),
                                'final_state': model.dump(csc.db, ['jobs', 'batch_updates', 'job_groups', 'job_groups_cancelled',
                                                                   'user_inst_coll_resources', 'attempts'])})
     R.ob(name, st, dt, {'violated': bad[:4]}, nontrivial=True)
@@ -137,7 +143,8 @@ def replay_file(path, asserts):
         print('not a BMC replay:', d.get('kind'), d.get('witness'))
         return 1
     sizes = model.Sizes(**d['sizes'])
-    bad, sc = concrete_replay(sizes, d['n1'], d['g1'], tuple(d['seq']), d['values'], asserts, d.get('commit', True))
+    bad, sc = concrete_replay(sizes, d['n1'], d['g1'], tuple(d['seq']), d['values'], asserts, d.get('commit', True),
+                              tuple(d.get('prefix_ops', ())))
     print('sequence:', d['seq'])
     print('violated:', bad)
     return 1 if bad else 0
